@@ -95,9 +95,11 @@ def build_txns(data_atoms, names, rnd, variant):
         dict(date=d(2025, 1, 5), raw_description=desc + ' one', description=n1, amount=sg * 40.25, merchant=n1, category='Food', subcategory='Grocery',
              source='Card', location='WA', tags=['weekly', desc[:12].strip().lower() or 't'], extra_fields={'note': desc}),
         dict(date=d(2025, 2, 6), raw_description=desc + ' two', description=n1, amount=(-12.5 if zero_spending else 12.5 if zero_credits else (-10.0 if variant % 2 else 12.5)), merchant=n1, category='Food',
-             subcategory='Grocery', source='Bank "B"', location=None, tags=[]),
+             subcategory='Grocery', source='Bank "B"', location=None, tags=[],
+             # a field: directive may evaluate to any value - zero, false, the empty text and None are values too
+             **({'extra_fields': {'over_budget': 0.0, 'is_large': False, 'memo': '', 'matched': None, 'n': 0}} if variant % 2 else {})),
         dict(date=d(2025, 2, 7), raw_description='other ' + desc, description=n2, amount=sg * 100.0, merchant=n2, category='Bills & <Co>', subcategory='',
-             source='Card', location=None, tags=['recurring']),
+             source='Card', location=None, tags=['recurring'], **({'extra_fields': {'kind': desc, 'count': 0}} if variant % 3 == 2 else {})),
         dict(date=d(2025, 1, 31), raw_description='PAYROLL ' + desc, description='Employer', amount=-3000.0, merchant='Employer', category='Income',
              subcategory='Salary', source='Bank "B"', location=None, tags=['income']),
         dict(date=d(2025, 2, 1), raw_description='TO SAVINGS', description='Savings', amount=-500.0 if zero_credits else 500.0, merchant='Savings', category='Transfers',
@@ -105,6 +107,13 @@ def build_txns(data_atoms, names, rnd, variant):
         dict(date=d(2025, 2, 2), raw_description='401K', description='Fidelity', amount=-250.0 if variant % 3 == 0 else 250.0, merchant='Fidelity',
              category='Invest', subcategory='', source='Card', location=None, tags=['investment']),
     ]
+    if variant % 4 in (1, 2):
+        # one merchant, transactions with DIFFERENT special tags (two rules share the merchant name; a conditional tag): a card whose
+        # payment is a transfer and whose annual fee is spending, an employer whose reimbursement is not income
+        txns.append(dict(date=d(2025, 2, 3), raw_description='ANNUAL FEE ' + desc, description='Savings', amount=sg * 95.0, merchant='Savings',
+                         category='Transfers', subcategory='', source='Card', location=None, tags=[]))
+        txns.append(dict(date=d(2025, 2, 4), raw_description='REIMBURSEMENT', description='Employer', amount=-42.0, merchant='Employer',
+                         category='Income', subcategory='Salary', source='Bank "B"', location=None, tags=['expenses']))
     if variant % 3 != 1:
         # what no rule matched (Unknown / Unknown) next to categories a rule may legitimately assign with the same words
         txns.append(dict(date=d(2025, 2, 12), raw_description='MYSTERY ' + desc, description='Mystery', amount=sg * 9.5, merchant='Mystery',
@@ -185,6 +194,23 @@ def run_case(data_atoms, names, seed, with_views):
             cat_sum = sum(c['total'] for c in data['categoryView'].values())
             if abs(cat_sum - stats['total_transactions']) > 1e-6:
                 fails.append(('category-sums', feats, 'categoryView totals add up to %s, the analysed total is %s' % (cat_sum, stats['total_transactions'])))
+            # the per-category type totals are folds over the category's OWN transactions, each by its own tags
+            SPECIAL = ('income', 'investment', 'transfer')
+            for cname, cat in data['categoryView'].items():
+                want_tt = {'spending': 0.0, 'income': 0.0, 'investment': 0.0, 'transfer': 0.0}
+                for sub in cat['subcategories'].values():
+                    for m in sub['merchants'].values():
+                        for x in m['transactions']:
+                            tl = {t.lower() for t in x.get('tags', [])}
+                            kind = next((k for k in SPECIAL if k in tl), 'spending')
+                            if kind != 'spending':
+                                want_tt[kind] += abs(x['amount'])
+                            elif x['amount'] >= 0:              # (refunds are credits: not part of a category's spending)
+                                want_tt[kind] += x['amount']
+                got_tt = cat.get('typeTotals') or {}
+                if any(abs(got_tt.get(k, 0) - want_tt[k]) > 1e-6 for k in want_tt):
+                    fails.append(('category-type-totals', feats, 'category %r: typeTotals %s, its transactions add up to %s' % (cname, got_tt, want_tt)))
+                    break
             hfig = {'income_total': data['incomeTotal'], 'spending_total': data['spendingTotal'], 'credits_total': data['creditsTotal'],
                     'cash_flow': data['cashFlow'], 'transfers_in': data['transfersIn'], 'transfers_out': data['transfersOut'],
                     'transfers_net': data['transfersNet']}
